@@ -4,7 +4,7 @@ import os
 import common
 
 PROPS = "RotoV.Props.C16"
-MODULES = ["RotoV.Lemmas.ListConc", "RotoV.Model.ListConc"]
+MODULES = ["RotoV.Lemmas.ListConc", "RotoV.Model.ListConc", "RotoV.Lemmas.ListTrace", "RotoV.Model.ListTrace"]
 
 
 def harness_args(ctx, seed, tier, model=True):
